@@ -121,10 +121,13 @@ def c11_cases(chk, quick):
         cases.append(dict(m=rnd.choice([1, 2, 3, 5, 16, 64]), l=rnd.choice([1, 2, 3, 5]) if n >= 5 else 1, seqs=seqs))
     # hasher / element-label variety: the crate's identity hasher with small consecutive integers
     for i, c in enumerate(cases):
-        if i % 3 == 1:
+        if i % 4 == 1:
             c["hasher"] = "nohash"
             c["elems"] = "small"
-        elif i % 3 == 2:
+        elif i % 4 == 2:
+            c["elems"] = "small"
+        elif i % 4 == 3:
+            c["hasher"] = "ident"          # a true identity hasher: hashes are neighbouring small integers
             c["elems"] = "small"
     return cases
 
